@@ -272,7 +272,9 @@ def run_cases(exe, cases, asan=False, leaks=None):
     for i, c in enumerate(order):
         chunks[i % nchunks].append(c)
     with ThreadPoolExecutor(max_workers=NPROC) as ex:
-        for loc in ex.map(run_chunk, [sorted(ch) for ch in chunks if ch]):
+        # deterministic shuffle inside a process: calls with n in {0,1} must also come AFTER larger
+        # calls on the same thread (a wrapper that caches per-thread state would only show then)
+        for loc in ex.map(run_chunk, [sorted(ch, key=lambda c: hashlib.sha1(str(c[0]).encode()).hexdigest()) for ch in chunks if ch]):
             res.update(loc)
     return res
 
